@@ -109,5 +109,7 @@ pub fn hist_cfg(prop: &str, run_seed: u64, thorough: bool) -> HistCfg {
         keep_trace: false,
         reload_every: if prop == "C10" { 6 } else { 0 },
         stop_at_first: true,
+        harvest_edges: false,
+        check_from: 0,
     }
 }
